@@ -273,7 +273,7 @@ func runC12(c *Ctx, r *Rec) {
 		r.check(bad == "", "D3-error-token-diagnostic", construct, c.pos(fd.Pos()), "every path from the queue read to the return passes the error-token test, whose true edge panics with the diagnostic", bad)
 	}
 	r.count("token readers", nReaders)
-	r.floor("D3-error-token-diagnostic", 1)
+	r.floorSoft("D3-error-token-diagnostic", "cdcn.parser/token-readers", "no parser method reads the token queue itself (the read sits in a private type of its own)")
 
 	// ---- D4 scanner cannot spin
 	al := newAlphabet()
